@@ -334,6 +334,25 @@ class Gen:
             types.append(t)
             pool.append(t['name'])
             self.hit('type.' + p)
+        # a public type named like a primitive type in another letter case ("alias" types of production schemas:
+        # `<type name="UInt16" primitiveType="uint16"/>`).  Type lookup is case-insensitive, but a field whose `type`
+        # is the exact primitive name is the built-in type; the alias differs from it in presence, size or primitive
+        if self.maybe(0.3):
+            base = r.choice(['uint16', 'char', 'int32', 'uint8', 'int64', 'double', 'uint32'])
+            alias = r.choice([base.upper(), base.capitalize(), base[0].upper() + base[1].upper() + base[2:]])
+            if alias != base and all(t['name'].lower() != alias.lower() for t in types):
+                t = {'k': 'type', 'name': alias, 'prim': r.choice([base, 'uint8', 'uint64'])}
+                how = r.choice(['optional', 'array', 'other-prim'])
+                if how == 'optional':
+                    t['prim'] = base
+                    t['presence'] = 'optional'
+                elif how == 'array':
+                    t['prim'] = r.choice(SINGLE_BYTE)
+                    t['length'] = r.choice([2, 8])
+                types.append(t)
+                pool.append(alias)
+                self.alias_prims = getattr(self, 'alias_prims', []) + [base]
+                self.hit('type.named_like_primitive')
         # arrays
         for _ in range(r.randint(1, 3)):
             p = r.choice(SINGLE_BYTE)
@@ -472,6 +491,10 @@ class Gen:
                 continue
             if self.maybe(0.3):
                 ty = r.choice(PRIMS)
+                if getattr(self, 'alias_prims', None) and self.maybe(0.5):
+                    # the exact primitive name next to a public type that differs from it only in letter case
+                    ty = r.choice(self.alias_prims)
+                    self.hit('field.primitive_with_alias_type')
                 f = {'name': self.name('f'), 'id': self.n, 'type': ty}
                 if self.maybe(0.2):
                     f['presence'] = 'optional'
@@ -523,6 +546,7 @@ class Gen:
     def schema(self, nmsgs=2):
         r = self.r
         types = []
+        self.alias_prims = []
         self.version = r.randint(0, 5)
         bo = r.choice(['littleEndian', 'bigEndian'])
         self.hit('byteOrder.' + bo)
